@@ -43,6 +43,27 @@ def main():
         r = seeded.get(sid, {})
         outcome = ', '.join(f'{k}: {v}' for k, v in sorted(r.items())) or 'not run'
         lines.append(f'| `{sid}` | {meta["property"]} | {meta["needs_to_manifest"]} | {outcome} |')
+    refac = load('REFACTORINGS.json')
+    lines += ['', '## Behaviour-preserving refactorings (`refactorings/<id>/`, negative controls)', '',
+              'Written by fresh sub-agents asked for a substantial restructuring with identical observable behaviour',
+              '(each convinced itself with its own differential test against the pristine tree; pinned suite 301/301).',
+              'ALL 20 checks are run on each; every one must stay green - an alarm would be a false alarm of the check',
+              '(or a refactoring that is not one).', '',
+              '| id | what was restructured | files | result over the 20 checks |', '|---|---|---|---|']
+    base = os.path.join(VERIF, 'refactorings')
+    for rid in sorted(os.listdir(base)) if os.path.isdir(base) else []:
+        meta = json.load(open(os.path.join(base, rid, 'meta.json')))
+        r = refac.get(rid, {})
+        green = sum(v == 'green' for v in r.values())
+        other = ', '.join(f'{k}: {v}' for k, v in sorted(r.items()) if v != 'green')
+        lines.append(f'| `{rid}` | {meta["refactor"]} | {meta["files"]} | {green} of {len(r)} green'
+                     f'{(" - " + other + " **UNEXPECTED**") if other else ""} |')
+    for seed in (2, 3):
+        ms = load(f'SEEDED_seed{seed}.json')
+        if ms:
+            missed = sorted(k for k, v in ms.items() if not any(x == 'VIOLATION' for x in v.values()))
+            lines += ['', f'Seeded changes re-run with VERIF_SEED={seed}: {len(ms) - len(missed)} of {len(ms)} detected'
+                      + (f' (not detected: {", ".join(missed)})' if missed else '') + '.']
     open(os.path.join(VERIF, 'mutants', 'RESULTS.md'), 'w').write('\n'.join(lines) + '\n')
     print('\n'.join(lines[-30:]))
 
